@@ -9,7 +9,9 @@ package c14
 
 import (
 	"bytes"
+	"encoding/binary"
 	"fmt"
+	"github.com/bitcoin-sv/block-headers-service/internal/chaincfg/chainhash"
 	"math/rand"
 	"net"
 	"os"
@@ -313,6 +315,44 @@ func concurrentRoundTrips(r *ev.Run, t *tables) {
 		var wg sync.WaitGroup
 		var bad atomic.Value
 		n := r.Pick(120, 1200)
+		// a hostile peer is at it meanwhile: frames with a correct header and checksum whose payload stops right where a count
+		// or a field is expected (rejected with an error, as they must be) - before the encoders start and while they run
+		var stopHostile atomic.Bool
+		var hostileFrames atomic.Int64
+		truncated := func() {
+			for _, cmd := range []string{"inv", "headers", "addr", "getheaders", "version", "ping", "reject"} {
+				for _, payload := range [][]byte{{}, {0xfd}, {0xfd, 0x01}, {0xfe, 1, 2}, {0x01}} {
+					var hdr [24]byte
+					binary.LittleEndian.PutUint32(hdr[0:4], uint32(wire.MainNet))
+					copy(hdr[4:16], cmd)
+					binary.LittleEndian.PutUint32(hdr[16:20], uint32(len(payload)))
+					sum := chainhash.DoubleHashB(payload)
+					copy(hdr[20:24], sum[:4])
+					_, _, _, err := wire.ReadMessageWithEncodingN(bytes.NewReader(append(hdr[:], payload...)), wire.ProtocolVersion, wire.MainNet, wire.BaseEncoding)
+					if err != nil {
+						hostileFrames.Add(1)
+					}
+				}
+			}
+			_, _ = wire.ReadVarInt(bytes.NewReader(nil), wire.ProtocolVersion)
+		}
+		for k := 0; k < 8; k++ {
+			truncated()
+		}
+		var hostileDone sync.WaitGroup
+		hostileDone.Add(1)
+		go func() {
+			defer hostileDone.Done()
+			defer func() { _ = recover() }()
+			for !stopHostile.Load() {
+				truncated()
+			}
+		}()
+		defer func() {
+			stopHostile.Store(true)
+			hostileDone.Wait()
+			r.Count("truncated_frames_rejected_next_to_the_concurrent_encoders", hostileFrames.Load())
+		}()
 		for g := 0; g < 16; g++ {
 			g := g
 			wg.Add(1)
